@@ -67,7 +67,7 @@ InWindow(from, until, t) ==
 (* ones (a field wrongly carried over or wrongly overwritten then shows).  *)
 
 WfBadCommon == {"badjson", "nosuffix", "nosigneddata", "reveal_mh", "reveal_long", "badjws",
-                "extrahdr", "algnone", "algdisallowed", "noalg", "nokey", "badkey", "crv",
+                "extrahdr", "extrahdr_b64true", "extrahdr_b64false", "extrahdr_crit", "algnone", "algdisallowed", "noalg", "nokey", "badkey", "crv",
                 "nonce", "payloadjson", "rsakey"}
 WfBad(type) ==
     CASE type = "create"     -> {"badjson", "nosuffixdata", "rc_mh", "dh_mh", "rc_long"}
